@@ -123,6 +123,12 @@ class ModelHarness(Harness):
             for ro in rowops:
                 for co in colops:
                     if ro[1] != co[1]: out.append(("dual", ro, co))
+            # two row commands of different kinds in one controller cycle on different phases (PRE of one bank, ACT of another): a legal DFI trace
+            # (two ACTs in one cycle would violate tRRD on these devices and are not driven)
+            if self.nph >= 2:
+                for ro in rowops:
+                    for r2 in rowops:
+                        if ro[0] == "pre" and r2[0] == "act" and ro[1] != r2[1]: out.append(("dual2", ro, r2))
         return out
 
     def describe(self, ch):
@@ -137,15 +143,16 @@ class ModelHarness(Harness):
         bud, banks, wpipe, rpipe, refmem, dutmem = E
         I = list(self.base)
         op = ch[0]
-        cmds = [] if op == "nop" else ([ch[1], ch[2]] if op == "dual" else [ch])
+        cmds = [] if op == "nop" else ([ch[1], ch[2]] if op in ("dual", "dual2") else [ch])
         wrc = None
-        for cm in cmds:
+        for n_cm, cm in enumerate(cmds):
             o = cm[0]
             if o == "act": ph, b, a, ras, cas, we = self.cmdphase, cm[1], cm[2], 0, 1, 1
             elif o == "pre": ph, b, a, ras, cas, we = self.cmdphase, cm[1], 0, 0, 1, 0
             elif o == "prea": ph, b, a, ras, cas, we = self.cmdphase, 0, 1 << 10, 0, 1, 0
             elif o in ("rd", "rda"): ph, b, a, ras, cas, we = self.rdphase, cm[1], cm[2] | ((1 << 10) if o == "rda" else 0), 1, 0, 1
             else: ph, b, a, ras, cas, we = self.wrphase, cm[1], cm[2] | ((1 << 10) if o == "wra" else 0), 1, 0, 0; wrc = cm
+            if op == "dual2" and n_cm == 1: ph = (self.cmdphase + 1) % self.nph      # second row command on the next phase
             d = self.i_ph[ph]
             I[d["cs_n"]] = 0; I[d["ras_n"]] = ras; I[d["cas_n"]] = cas; I[d["we_n"]] = we; I[d["bank"]] = b; I[d["address"]] = a
             if o in ("rd", "rda") and "rddata_en" in d: I[d["rddata_en"]] = 1
@@ -220,7 +227,7 @@ class ModelHarness(Harness):
         for bk in banks:
             for k in (1, 2, 3):
                 if bk[k] < 9: bk[k] += 1
-        cmds = [] if op == "nop" else ([ch[2], ch[1]] if op == "dual" else [ch])     # column command first: it refers to the state before the row command
+        cmds = [] if op == "nop" else ([ch[2], ch[1]] if op in ("dual", "dual2") else [ch])     # column command first: it refers to the state before the row command
         bud -= len(cmds)
         for cm in cmds:
             o = cm[0]
@@ -254,7 +261,7 @@ class ModelHarness(Harness):
                 if o == "wra":
                     banks[b][0] = -1; banks[b][2] = -(self.WL + 3)   # internal precharge after write recovery (conservative)
                     self.cov["WRA"] = self.cov.get("WRA", 0) + 1
-            if op == "dual": self.cov["dual"] = self.cov.get("dual", 0) + 1
+            if op in ("dual", "dual2"): self.cov[op] = self.cov.get(op, 0) + 1
         # ---- final memory comparison at quiescence
         if bud <= 0 and not wpipe and not rpipe:
             want = {}
